@@ -41,7 +41,12 @@ META = {
               "chains re-using names at both levels; two independent "
               "parents with three scoped children; child of child with a "
               "tagged leaf (set and, thorough, space-separated string form) "
-              "next to a separately tagged unconditional field.  Per field "
+              "next to a separately tagged unconditional field; three "
+              "four-field tag shapes in which a tagged field has two "
+              "requirements of which the outer one already carries the tag "
+              "(declared with it, inherited from another branch, or the "
+              "first of two unconditional fields keying one scope) and the "
+              "inner one does not.  Per field "
               "marked explicit (both flat fields; one or, thorough, both "
               "scoped children -- the second then only in its start; "
               "thorough: the chain's leaf or its root): "
@@ -407,6 +412,7 @@ def _run(ctx, shape, prog, blen, vbits, distinct, frag):
                       "single-field-value-or-mask", f.name)
             ctx.prove(h.get_tags(f.name) == f.tags, "tags-wrong",
                       (f.name, sorted(f.tags)))
+        tagged = {}
         alltags = set()
         for f in fields:
             alltags |= f.tags
@@ -422,7 +428,8 @@ def _run(ctx, shape, prog, blen, vbits, distinct, frag):
             wt = _or_all(_bits(f.s, f.l) for f in sel)
             ctx.prove(sand(mt == wt, vt == (v & wt)), "tag-mask-wrong",
                       (t, mt, wt))
-        return v, m
+            tagged[t] = (vt, mt)
+        return v, m, tagged
 
     def readback_all():
         keys = []
@@ -430,8 +437,8 @@ def _run(ctx, shape, prog, blen, vbits, distinct, frag):
             r = readback(h, given)
             if r is None:
                 return False
-            keys.append((given, r[0], r[1]))
-        for (g1, v1, m1), (g2, v2, m2) in combinations(keys, 2):
+            keys.append((given, r[0], r[1], r[2]))
+        for (g1, v1, m1, t1), (g2, v2, m2, t2) in combinations(keys, 2):
             common = [(g1[nm][1], g2[nm][1]) for nm in g1
                       if nm in g2 and g1[nm][0] is g2[nm][0]]
             if not common:
@@ -440,6 +447,15 @@ def _run(ctx, shape, prog, blen, vbits, distinct, frag):
             differ = sor(*[x1 != x2 for x1, x2 in common])
             ctx.prove(simplies(differ, ((v1 ^ v2) & m1 & m2) != 0),
                       "distinct-assignments-match", (v1, m1, v2, m2))
+            for t in sorted(set(t1) & set(t2)):
+                # assignments that differ in a field carrying the tag give
+                # tagged key/mask pairs that do not match either
+                dt = sor(*[g1[nm][1] != g2[nm][1] for nm in g1
+                           if nm in g2 and g1[nm][0] is g2[nm][0] and
+                           t in g1[nm][0].tags])
+                ctx.prove(simplies(dt, ((t1[t][0] ^ t2[t][0]) &
+                                        t1[t][1] & t2[t][1]) != 0),
+                          "distinct-assignments-match-under-tag", t)
             if (set(g1) != set(g2) or
                     any(g1[nm][0] is not g2[nm][0] for nm in g1)):
                 # different sets of present fields: some common field differs
@@ -519,6 +535,33 @@ def chain(lm=None, sm=None, plm=None, psm=None, tags=(), extra=False):
     return tuple(s)
 
 
+def tagtree():
+    """The outermost requirement already carries the leaves' tag; the field
+    in between is declared without it and must inherit it."""
+    return (("a", (), None, None, ("t",)),
+            ("b", (("a", "k0"),), None, None, ()),
+            ("c", (("a", "k0"), ("b", "k1")), None, None, ("t",)),
+            ("d", (("a", "k0"), ("b", "k2")), None, None, ("t",)))
+
+
+def taginherit():
+    """The root inherits the tag from one branch before a deeper tagged leaf
+    is defined in another branch below an untagged field."""
+    return (("a", (), None, None, ()),
+            ("c", (("a", "k0"),), None, None, ("t",)),
+            ("b", (("a", "k1"),), None, None, ()),
+            ("d", (("a", "k1"), ("b", "k2")), None, None, ("t",)))
+
+
+def tagtwo():
+    """A tagged field in a scope keyed on two unconditional fields, the
+    first of which already carries the tag."""
+    return (("a", (), None, None, ()),
+            ("b", (), None, None, ()),
+            ("x", (("a", "k0"),), None, None, ("t",)),
+            ("y", (("a", "k1"), ("b", "k2")), None, None, "t"))
+
+
 def chains2():
     return (("a", (), None, None, ()),
             ("b", (("a", "k0"),), None, None, ()),
@@ -590,6 +633,11 @@ def units(tier, seed):
     add("chain auto", chain(), "DVDVA", 8, w=FAIL, split=4)
     add("chain tags", chain(tags=("t",), extra=True), "DVA", 12,
         w=("tag-mask",), split=4)
+    # ---- tags whose propagation must pass an already tagged ancestor --
+    add("tag tree", tagtree(), "DVA", 8, 2, w=("tag-mask",), split=5)
+    add("tag two keys", tagtwo(), "DVA", 8, 2, w=("tag-mask",), split=5)
+    add("tag inherited", taginherit(), "DVA", 8, 2, distinct=R,
+        w=("tag-mask",), split=5)
     # ---- known finding: fragmentation with two independent parents ---
     add("two parents", two_parents(), "DVA", 8, 2,
         distinct=(("k0", "k2"),), frag=True, w=FAIL, split=5)
@@ -634,6 +682,9 @@ def units(tier, seed):
         w=("tag-mask",), split=6)
     add("chain tags", chain(tags=("t",), extra=True), "DAV", 12,
         w=("tag-mask",) + REJ, split=6)
+    add("tag tree", tagtree(), "PCA", 8, 2, w=("tag-mask",), split=6)
+    add("tag tree", tagtree(), "DAV", 8, 2, w=("tag-mask",), split=6)
+    add("tag two keys", tagtwo(), "PCA", 8, 2, w=("tag-mask",), split=6)
     add("chains2", chains2(), "DVA", 5, 2, distinct=R, w=FAIL, split=7)
     add("chains2", chains2(), "PCA", 5, 2, distinct=R, w=FAIL, split=7)
     add("two parents", two_parents(), "DVA", 9, 3,
